@@ -55,6 +55,9 @@ pub enum CtorCase {
     FromView { cols: u8, rows: u8, m: [u8; 4], mutable: bool, nested: Option<[u8; 4]>, tracked: bool },
     Convert { cols: u8, rows: u8, what: Conv, take: (u8, u8), tracked: bool },
     EqHash { cols: u8, rows: u8, variant: EqVariant },
+    /// `target.clone_from(&source)` with a (tc x tr) target: Clone's other method must leave the
+    /// target equal to, and independent of, the source whatever the target held before
+    CloneFrom { cols: u8, rows: u8, tc: u8, tr: u8, tracked: bool, spare: bool },
 }
 
 fn hash_of<T: Hash>(t: &T) -> u64 {
@@ -235,6 +238,48 @@ fn from_view_case<E: Elem + Clone>(cols: usize, rows: usize, m: [u8; 4], mutable
         ctx.class("non-square-from-view");
     }
     ctx.class(what);
+    Ok(())
+}
+
+fn clone_from_case<E: Elem + Clone + PartialEq>(cols: usize, rows: usize, tc: usize, tr: usize, spare: bool, ctx: &mut Ctx) -> Verdict {
+    let norm = |c: usize, r: usize| if c == 0 || r == 0 { (0, 0) } else { (c, r) };
+    let (c, r) = norm(cols, rows);
+    let (tc, tr) = norm(tc, tr);
+    let src: TooDee<E> = TooDee::from_vec(c, r, (0..c * r).map(|i| E::mint((i % 4) as u8)).collect());
+    let ids: Vec<u64> = src.data().iter().map(|e| e.id()).collect();
+    let mut v: Vec<E> = Vec::with_capacity(tc * tr + if spare { c * r + 3 } else { 0 });
+    v.extend((0..tc * tr).map(|i| E::mint(((i + 1) % 4) as u8)));
+    let mut t: TooDee<E> = TooDee::from_vec(tc, tr, v);
+    let res = catch(|| t.clone_from(&src));
+    ensure!(res.is_ok(), "CloneFrom/panicked", "clone_from of a {}x{} array into a {}x{} array panicked: {:?}", c, r, tc, tr, res);
+    ensure!(t.size() == (c, r) && t.data().len() == c * r, "CloneFrom/shape", "after clone_from of a {}x{} array into a {}x{} array the target has size {:?} and {} cells", c, r, tc, tr, t.size(), t.data().len());
+    for (i, (a, b)) in t.data().iter().zip(src.data()).enumerate() {
+        ensure!(a.key() == b.key(), "CloneFrom/cells", "after clone_from of a {}x{} array into a {}x{} array cell {} differs from the source", c, r, tc, tr, i);
+        if E::TRACKED {
+            ensure!(a.id() != b.id(), "CloneFrom/shared", "after clone_from the target shares element {} with the source", a.id());
+        }
+    }
+    ensure!(t == src, "CloneFrom/not-equal", "after clone_from the target does not compare equal to the source");
+    ensure!(src.size() == (c, r) && src.data().iter().map(|e| e.id()).collect::<Vec<_>>() == ids, "CloneFrom/source-changed", "clone_from changed its source");
+    if E::TRACKED {
+        ensure!(elem::double_drops().is_empty(), "CloneFrom/double-drop", "clone_from dropped an element twice: {:?}", elem::double_drops());
+        ensure!(elem::live_count() as usize == 2 * c * r, "CloneFrom/leak-or-overdrop", "after clone_from of a {}x{} array into a {}x{} array {} elements are live, expected {}", c, r, tc, tr, elem::live_count(), 2 * c * r);
+    }
+    if !t.is_empty() {
+        t[(0, 0)] = E::mint(9);
+        t.swap_rows(0, r - 1);
+        let _ = t.remove_col(0);
+    }
+    ensure!(src.data().iter().map(|e| e.id()).collect::<Vec<_>>() == ids, "CloneFrom/not-independent", "mutating the target after clone_from changed the source");
+    drop(src);
+    if E::TRACKED {
+        for e in t.data() {
+            ensure!(elem::is_live(e.id()), "CloneFrom/dangling", "dropping the source killed an element of the target");
+        }
+    }
+    ctx.nt();
+    ctx.class("CloneFrom");
+    ctx.class(if (tc, tr) == (c, r) { "clone_from-same-shape" } else if tc * tr == c * r { "clone_from-same-cell-count-different-shape" } else if tc * tr > c * r { "clone_from-into-larger" } else { "clone_from-into-smaller" });
     Ok(())
 }
 
@@ -428,6 +473,13 @@ pub fn exec(k: &CtorCase, ctx: &mut Ctx) -> Verdict {
             }
         }
         CtorCase::EqHash { cols, rows, variant } => eq_case(*cols as usize, *rows as usize, *variant, ctx),
+        CtorCase::CloneFrom { cols, rows, tc, tr, tracked, spare } => {
+            if *tracked {
+                clone_from_case::<Tr>(*cols as usize, *rows as usize, *tc as usize, *tr as usize, *spare, ctx)
+            } else {
+                clone_from_case::<u32>(*cols as usize, *rows as usize, *tc as usize, *tr as usize, *spare, ctx)
+            }
+        }
     }
 }
 
@@ -490,6 +542,21 @@ impl Prop for C20 {
                         }
                     }
                 }
+                // clone_from into every target shape up to 4x4 (same, transposed, same area, larger, smaller, empty)
+                if cols <= 4 && rows <= 4 {
+                    for tc in 0u8..=4 {
+                        for tr in 0u8..=4 {
+                            if (tc == 0) != (tr == 0) {
+                                continue;
+                            }
+                            for tracked in [false, true] {
+                                emit(CtorCase::CloneFrom { cols, rows, tc, tr, tracked, spare: (tc + tr) % 2 == 0 });
+                            }
+                        }
+                    }
+                    emit(CtorCase::CloneFrom { cols, rows, tc: cols * rows, tr: 1, tracked: true, spare: false });
+                    emit(CtorCase::CloneFrom { cols, rows, tc: 1, tr: cols * rows, tracked: true, spare: true });
+                }
                 for variant in [EqVariant::Identical, EqVariant::Transposed, EqVariant::Flattened, EqVariant::DifferentCapacity, EqVariant::ExtraRow, EqVariant::ExtraCol, EqVariant::EmptyVsEmpty] {
                     emit(CtorCase::EqHash { cols, rows, variant });
                 }
@@ -509,6 +576,16 @@ impl Prop for C20 {
             3 => (0u8..=12, 0u8..=12, small_margin(), any::<bool>(), prop::option::weighted(0.3, small_margin()), any::<bool>()).prop_map(|(cols, rows, m, mutable, nested, tracked)| CtorCase::FromView { cols, rows, m, mutable, nested, tracked }),
             2 => (0u8..=12, 0u8..=12, conv, (0u8..8, 0u8..8), any::<bool>()).prop_map(|(cols, rows, what, take, tracked)| CtorCase::Convert { cols, rows, what, take, tracked }),
             3 => (0u8..=12, 0u8..=12, variant).prop_map(|(cols, rows, variant)| CtorCase::EqHash { cols, rows, variant }),
+            2 => (0u8..=12, 0u8..=12, 0u8..6, 0u8..=12, 0u8..=12, any::<bool>(), any::<bool>()).prop_map(|(cols, rows, rel, a, b, tracked, spare)| {
+                let (tc, tr) = match rel {
+                    0 => (cols, rows),
+                    1 => (rows, cols),
+                    2 => (cols.saturating_mul(rows).min(144), 1),
+                    3 => (1, cols.saturating_mul(rows).min(144)),
+                    _ => (a, b),
+                };
+                CtorCase::CloneFrom { cols, rows, tc, tr, tracked, spare }
+            }),
         ]
         .boxed()
     }
@@ -535,6 +612,12 @@ impl Prop for C20 {
                 *cols %= 13;
                 *rows %= 13;
             }
+            CtorCase::CloneFrom { cols, rows, tc, tr, .. } => {
+                *cols %= 13;
+                *rows %= 13;
+                *tc %= 13;
+                *tr %= 13;
+            }
         }
         true
     }
@@ -545,6 +628,6 @@ impl Prop for C20 {
         exec(k, ctx)
     }
     fn essential_classes() -> &'static [&'static str] {
-        &["accepted", "rejected", "strided-from-view", "non-square-from-view", "pair-differing-only-in-shape", "equal-pair", "unequal-pair", "New", "Init", "FromVec", "FromBox", "ViewNew", "ViewMutNew", "Clone", "IntoIter"]
+        &["accepted", "rejected", "strided-from-view", "non-square-from-view", "pair-differing-only-in-shape", "equal-pair", "unequal-pair", "New", "Init", "FromVec", "FromBox", "ViewNew", "ViewMutNew", "Clone", "IntoIter", "CloneFrom", "clone_from-same-cell-count-different-shape", "clone_from-into-larger", "clone_from-into-smaller"]
     }
 }
